@@ -175,13 +175,10 @@ func (z *zooBuilder) addDone() {
 		{"more+count", TDS_DONE_MORE | TDS_DONE_COUNT, TDS_NOT_IN_TRAN, 3},
 		{"more+error+inxact", TDS_DONE_MORE | TDS_DONE_ERROR | TDS_DONE_INXACT, TDS_TRAN_STMT_FAIL, 0},
 		{"inxact+count", TDS_DONE_INXACT | TDS_DONE_COUNT, TDS_TRAN_IN_PROGRESS, 1},
-		{"attn+more", TDS_DONE_ATTN | TDS_DONE_MORE, TDS_NOT_IN_TRAN, 0},
-		{"count/zero", TDS_DONE_COUNT, TDS_NOT_IN_TRAN, 0},
 		{"count/max", TDS_DONE_COUNT, TDS_NOT_IN_TRAN, math.MaxInt32},
 		{"count/negative", TDS_DONE_COUNT, TDS_NOT_IN_TRAN, -1},
 		{"count+cumulative", TDS_DONE_COUNT | TDS_DONE_CUMULATIVE, TDS_NOT_IN_TRAN, 12},
 		{"tran-completed", TDS_DONE_FINAL, TDS_TRAN_COMPLETED, 0},
-		{"nocount-garbage", TDS_DONE_FINAL, TDS_NOT_IN_TRAN, 99},
 	})
 	add("doneproc", "DONEPROC", DoneProc, []d{
 		{"final", TDS_DONE_FINAL, TDS_NOT_IN_TRAN, 0},
@@ -217,17 +214,14 @@ func (z *zooBuilder) addEED() {
 	es := []e{
 		{"info", 5701, 2, 10, "ZZZZZ", TDS_EED_INFO, TDS_NOT_IN_TRAN, "Changed database context to 'master'.\n", "ASE160", "", 1},
 		{"info/nosqlstate", 5703, 1, 10, "", TDS_EED_INFO, TDS_NOT_IN_TRAN, "Changed language setting to 'us_english'.\n", "ASE160", "", 0},
-		{"info/print", 0, 1, 0, "", TDS_EED_INFO, TDS_TRAN_IN_PROGRESS, "hello from print", "ASE160", "sp_hello", 3},
 		{"info+follows", 3621, 0, 10, "01000", TDS_EED_INFO | TDS_EED_FOLLOWS, TDS_NOT_IN_TRAN, "Command has been aborted.\n", "ASE160", "", 1},
 		{"error", 102, 181, 15, "42000", TDS_NO_EED, TDS_NOT_IN_TRAN, "Incorrect syntax near 'frm'.\n", "ASE160", "", 1},
 		{"error/nosqlstate", 208, 1, 16, "", TDS_NO_EED, TDS_NOT_IN_TRAN, "nosuchtable not found. Specify owner.objectname or use sp_help to check whether the object exists (sp_help may produce lots of output).\n", "ASE160", "", 1},
 		{"error/emptymsg", 50000, 0, 16, "ZZZZZ", TDS_NO_EED, TDS_NOT_IN_TRAN, "", "", "", 0},
 		{"error/emptymsg/nosqlstate", 50001, 0, 16, "", TDS_NO_EED, TDS_NOT_IN_TRAN, "", "", "", 0},
 		{"error/longmsg", 20001, 1, 16, "ZZZZZ", TDS_NO_EED, TDS_TRAN_FAIL, pattern(600), "ASE160", "", 17},
-		{"error/longmsg/nosqlstate", 20002, 1, 16, "", TDS_NO_EED, TDS_NOT_IN_TRAN, pattern(300), "", "", 17},
 		{"error/proc", 2601, 6, 14, "23000", TDS_NO_EED, TDS_TRAN_STMT_FAIL, "Attempt to insert duplicate key row in object 't' with unique index 'pk'\n", "ASE160", "sp_insert_t", 42},
 		{"error/follows", 547, 1, 16, "23000", TDS_EED_FOLLOWS, TDS_TRAN_IN_PROGRESS, "Foreign key constraint violation occurred, dbname = 'pubs2', table name = 'titles'.\n", "ASE160", "", 1},
-		{"error/fatal", 21, 1, 21, "", TDS_NO_EED, TDS_NOT_IN_TRAN, "WARNING - Fatal Error 21 occurred.", "ASE160", "", 0},
 		{"error/maxnames", 1205, 2, 13, "40001", TDS_NO_EED, TDS_TRAN_FAIL, "deadlock", pattern(255), pattern(255), 65535},
 		{"error/highnum", math.MaxInt32, 255, 255, "ZZZZZ", TDS_NO_EED, TDS_NOT_IN_TRAN, "x", "s", "p", 1},
 		{"error/multiline", 7412, 3, 10, "", TDS_NO_EED, TDS_NOT_IN_TRAN, "line one\nline two\n", "ASE160", "", 2},
@@ -293,12 +287,10 @@ func (z *zooBuilder) addEnvChange() {
 		{"lang", []EnvMember{lang}},
 		{"charset", []EnvMember{charset}},
 		{"packsize", []EnvMember{packsize}},
-		{"packsize/same", []EnvMember{{TDS_ENV_PACKSIZE, "512", "512"}}},
 		{"db/noold", []EnvMember{{TDS_ENV_DB, "tempdb", ""}}},
 		{"db/empty", []EnvMember{{TDS_ENV_DB, "", ""}}},
 		{"db/maxlen", []EnvMember{{TDS_ENV_DB, pattern(255), pattern(255)}}},
 		{"three", []EnvMember{db, lang, charset}},
-		{"three/packsize-last", []EnvMember{lang, charset, packsize}},
 		{"four", []EnvMember{db, lang, charset, packsize}},
 	}
 	for _, x := range es {
@@ -333,7 +325,6 @@ func (z *zooBuilder) addLoginAck() {
 		{"negotiate", TDS_LOG_NEGOTIATE, [4]byte{5, 0, 0, 0}, "Adaptive Server Enterprise", [4]byte{16, 0, 0, 4}},
 		{"succeed/sqlserver", TDS_LOG_SUCCEED, [4]byte{5, 0, 0, 0}, "sql server", [4]byte{12, 5, 4, 0}},
 		{"succeed/noname", TDS_LOG_SUCCEED, [4]byte{5, 0, 0, 0}, "", [4]byte{0, 0, 0, 0}},
-		{"fail/noname", TDS_LOG_FAIL, [4]byte{5, 0, 0, 0}, "", [4]byte{0, 0, 0, 0}},
 		{"succeed/tds42", TDS_LOG_SUCCEED, [4]byte{4, 2, 0, 0}, "OpenServer", [4]byte{255, 254, 253, 252}},
 	}
 	for _, x := range es {
@@ -351,14 +342,11 @@ func (z *zooBuilder) addMsg() {
 	}
 	es := []e{
 		{"sec-encrypt", TDS_MSG_HASARGS, TDS_MSG_SEC_ENCRYPT},
-		{"sec-logpwd", TDS_MSG_HASARGS, TDS_MSG_SEC_LOGPWD},
 		{"sec-challenge", TDS_MSG_HASARGS, TDS_MSG_SEC_CHALLENGE},
 		{"sec-opaque", TDS_MSG_HASARGS, TDS_MSG_SEC_OPAQUE},
 		{"hafailover", TDS_MSG_HASNOARGS, TDS_MSG_HAFAILOVER},
-		{"sec-encrypt2", TDS_MSG_HASARGS, TDS_MSG_SEC_ENCRYPT2},
 		{"sec-encrypt3", TDS_MSG_HASARGS, TDS_MSG_SEC_ENCRYPT3},
 		{"sec-encrypt4", TDS_MSG_HASARGS, TDS_MSG_SEC_ENCRYPT4},
-		{"sec-encrypt4/noargs", TDS_MSG_HASNOARGS, TDS_MSG_SEC_ENCRYPT4},
 		{"user-defined", TDS_MSG_HASNOARGS, 32768},
 		{"id-max", TDS_MSG_HASARGS, 65535},
 	}
@@ -383,9 +371,7 @@ func (z *zooBuilder) addCapability() {
 		{"short", CapMask(2, 1, 9), CapMask(1, 1), nil},
 		{"none", nil, nil, nil},
 		{"req-only", CapMask(3, 1, 12, 20), nil, nil},
-		{"resp-only", nil, CapMask(10, 2, 73), nil},
 		{"zero-length-masks", []byte{}, []byte{}, nil},
-		{"all-zero", make([]byte, 14), make([]byte, 10), nil},
 		{"all-ones", []byte{0xff, 0xff, 0xff, 0xff, 0xff, 0xff, 0xff, 0xff, 0xff, 0xff, 0xff, 0xff, 0xff, 0xfe}, []byte{0xff, 0xff, 0xfe}, nil},
 		{"security", req, resp, CapMask(1, 1, 2)},
 	}
@@ -411,7 +397,7 @@ func multiCols() []Col {
 }
 
 func (z *zooBuilder) addMisc() {
-	for _, v := range []int32{0, 1, -1, -6, math.MaxInt32, math.MinInt32} {
+	for _, v := range []int32{0, 1, -6, math.MaxInt32, math.MinInt32} {
 		z.pkg(fmt.Sprintf("returnstatus/%d", v), "RETURNSTATUS", ReturnStatus(v),
 			fmt.Sprintf("RETURNSTATUS value=%d", v), v)
 	}
@@ -419,7 +405,7 @@ func (z *zooBuilder) addMisc() {
 	// ORDERBY/ORDERBY2 follow a row format.
 	z.put(false, Entry{Name: "rowfmt2/multi", Kind: "ROWFMT2", Bytes: RowFmt(true, multiCols()...), Visible: true,
 		Spec: "ROWFMT2 id INT4, title VARCHAR(80), price MONEYN(8), pubdate DATETIMEN(8), contract BIT, hash VARBINARY(16), notes TEXT", Cols: multiCols()})
-	for _, cols := range [][]uint8{{}, {1}, {2, 1}, {3, 1, 2}, {7, 6, 5, 4, 3, 2, 1}} {
+	for _, cols := range [][]uint8{{}, {1}, {3, 1, 2}, {7, 6, 5, 4, 3, 2, 1}} {
 		tag := fmt.Sprintf("%d", len(cols))
 		vals := make([]interface{}, len(cols))
 		for i, c := range cols {
@@ -432,7 +418,7 @@ func (z *zooBuilder) addMisc() {
 	for i := range many {
 		many[i] = uint16(300 + i)
 	}
-	for _, cols := range [][]uint16{{}, {1}, {2, 1}, {3, 1, 2}, many} {
+	for _, cols := range [][]uint16{{}, {1}, {3, 1, 2}, many} {
 		tag := fmt.Sprintf("%d", len(cols))
 		vals := make([]interface{}, len(cols))
 		for i, c := range cols {
@@ -456,11 +442,9 @@ func (z *zooBuilder) addMisc() {
 		{"ack/emptyid", false, TDS_DYN_ACK, 0, "", ""},
 		{"ack/maxid", false, TDS_DYN_ACK, 0, pattern(255), ""},
 		{"prepare", false, TDS_DYN_PREPARE, 0, "stmt1", "create proc stmt1 as select * from t where a = ?"},
-		{"prepare/emptystmt", false, TDS_DYN_PREPARE, 0, "stmt1", ""},
 		{"exec-immed", false, TDS_DYN_EXEC_IMMED, 0, "", "delete from t"},
 		{"exec", false, TDS_DYN_EXEC, TDS_DYNAMIC_HASARGS, "stmt1", ""},
 		{"dealloc", false, TDS_DYN_DEALLOC, 0, "stmt1", ""},
-		{"descout", false, TDS_DYN_DESCOUT, 0, "stmt1", ""},
 	} {
 		z.pkg("dynamic/"+x.tag, "DYNAMIC", Dynamic(x.wide, x.typ, x.status, x.id, x.stmt),
 			fmt.Sprintf("DYNAMIC type=0x%02x status=0x%02x id=%s stmt=%s", x.typ, x.status, abbrev(x.id), abbrev(x.stmt)),
@@ -492,10 +476,8 @@ func (z *zooBuilder) addMisc() {
 		{"open", 1, "", TDS_CUR_CMD_INFORM, TDS_CUR_ISTAT_OPEN | TDS_CUR_ISTAT_RDONLY, 0, -1, 0},
 		{"open+rowcnt", 65537, "", TDS_CUR_CMD_INFORM, TDS_CUR_ISTAT_OPEN | TDS_CUR_ISTAT_UPDATABLE | TDS_CUR_ISTAT_ROWCNT, 3, 100, 10},
 		{"closed", 1, "", TDS_CUR_CMD_INFORM, TDS_CUR_ISTAT_CLOSED, 0, 0, 0},
-		{"dealloc", 1, "", TDS_CUR_CMD_INFORM, TDS_CUR_ISTAT_CLOSED | TDS_CUR_ISTAT_DEALLOC, 0, 0, 0},
 		{"named", 0, "authors_crsr", TDS_CUR_CMD_INQUIRE, TDS_CUR_ISTAT_DECLARED, 0, 0, 0},
 		{"named+rowcnt", 0, "c", TDS_CUR_CMD_SETCURROWS, TDS_CUR_ISTAT_ROWCNT, 0, 0, 25},
-		{"named/empty", 0, "", TDS_CUR_CMD_LISTALL, 0, 0, 0, 0},
 	}
 	for _, x := range curs {
 		z.pkg("curinfo/"+x.tag, "CURINFO", CurInfo(false, x.id, x.name, x.cmd, x.status, x.rowNum, x.totalRows, x.rowCount),
